@@ -52,8 +52,18 @@ class SchemaChange:
     def message(self) -> str:
         return self.format_str.format(self=self)
 
+    def __str__(self) -> str:
+        return self.message
+
     def __eq__(self, other: Any) -> bool:
-        return isinstance(other, type(self)) and str(self) == str(other)
+        return (
+            isinstance(other, type(self))
+            and self.severity == other.severity
+            and self.message == other.message
+        )
+
+    def __hash__(self) -> int:
+        return hash((type(self), self.severity, self.message))
 
 
 class TypeChangedKind(SchemaChange):
